@@ -63,30 +63,39 @@ def gen_and_validate(check):
     Variant::try_new / VariantMetadata::try_new.  (2) Structural corruption plans: the driver writes the region maps
     of its valid files, TLC enumerates every plan (Gen_Untrusted), the driver applies each one and runs the safe
     readers.  Both produce traces that Trace_Untrusted judges like any other."""
+    from concurrent.futures import ThreadPoolExecutor
     from vlib import core
     q = check.tier == "quick"
-    got = _tlc_cases(check, "MC_Variant", "MC_Variant_quick.cfg" if q else "MC_Variant.cfg", workers=4,
-                     timeout=900 if q else 5400, what="exhaustive+generate")
-    if got:
-        cases, path = got
-        n = _run_driver(check, ["variant", "--cases", path])
-        check.gen_cases += n
-        check.samples.append(dict(kind="tlc_generated_case", module="MC_Variant", case=json.loads(cases[len(cases) // 2])))
-        core.log(f"[gen] MC_Variant: {len(cases)} tight valid encodings / universes from TLC; {n} byte strings replayed into Variant::try_new")
-    _run_driver(check, ["shapes"])
-    got = _tlc_cases(check, "Gen_Untrusted", "Gen_Untrusted_quick.cfg" if q else "Gen_Untrusted.cfg", workers=2,
-                     timeout=900 if q else 3600, env={"SHAPES": os.path.join(check.work, "shapes.ndjson")})
-    if got:
-        cases, path = got
-        n = _run_driver(check, ["gen", "--cases", path], timeout=7200)
-        check.gen_cases += n
-        check.samples.append(dict(kind="tlc_generated_case", module="Gen_Untrusted", case=json.loads(cases[len(cases) // 2])))
-        core.log(f"[gen] Gen_Untrusted: {len(cases)} structural corruption plans from TLC applied to real files, {n} reader sessions")
+
+    def variant():
+        got = _tlc_cases(check, "MC_Variant", "MC_Variant_quick.cfg" if q else "MC_Variant.cfg", workers=4,
+                         timeout=900 if q else 5400, what="exhaustive+generate")
+        if got:
+            cases, path = got
+            n = _run_driver(check, ["variant", "--cases", path])
+            check.gen_cases += n
+            check.samples.append(dict(kind="tlc_generated_case", module="MC_Variant", case=json.loads(cases[len(cases) // 2])))
+            core.log(f"[gen] MC_Variant: {len(cases)} tight valid encodings / universes from TLC; {n} byte strings replayed into Variant::try_new")
+
+    def plans():
+        _run_driver(check, ["shapes"])
+        got = _tlc_cases(check, "Gen_Untrusted", "Gen_Untrusted_quick.cfg" if q else "Gen_Untrusted.cfg", workers=2,
+                         timeout=900 if q else 3600, env={"SHAPES": os.path.join(check.work, "shapes.ndjson")})
+        if got:
+            cases, path = got
+            n = _run_driver(check, ["gen", "--cases", path], timeout=7200)
+            check.gen_cases += n
+            check.samples.append(dict(kind="tlc_generated_case", module="Gen_Untrusted", case=json.loads(cases[len(cases) // 2])))
+            core.log(f"[gen] Gen_Untrusted: {len(cases)} structural corruption plans from TLC applied to real files, {n} reader sessions")
+
+    # the two generators are independent: run them side by side
+    with ThreadPoolExecutor(max_workers=2) as ex:
+        for f in [ex.submit(variant), ex.submit(plans)]:
+            f.result()
     saved = check.plan["tv"]
     check.plan["tv"] = [
         dict(glob="untrusted-gen-*.ndjson", module="Trace_Untrusted", cfg="Trace_Untrusted.cfg", corrupt=["outcome", "newlen"],
-             timeout_thorough=7200),
-        dict(glob="untrusted-variant-*.ndjson", module="Trace_Untrusted", cfg="Trace_Untrusted.cfg", corrupt=["tok", "outcome"]),
+             stateful=True, reset_ops=["none"], timeout_thorough=7200),
     ]
     try:
         check.validate_traces()
@@ -185,7 +194,7 @@ PLAN = dict(
              timeout_quick=600, timeout_thorough=3600)],
     drive=[dict(bin="c08", args=["c08"], timeout=7200)],
     tv=[dict(glob="untrusted-drive-*.ndjson", module="Trace_Untrusted", cfg="Trace_Untrusted.cfg",
-             corrupt=["outcome", "newlen", "nb"], timeout_thorough=7200)],
+             corrupt=["outcome", "newlen", "nb"], stateful=True, reset_ops=["none"], timeout_thorough=7200)],
     extra_steps=[
         nested_selftest("untrusted-drive-*.ndjson", "Trace_Untrusted", "Trace_Untrusted.cfg",
                         [("rows", _rows), ("column_type", _coltype), ("null_count", _nc), ("short_buffer", _short), ("offsets", _offs),
